@@ -203,9 +203,17 @@ VT = {
 }
 DECL_CTX = ["module", "function", "block", "class", "import"]
 FORMS = ["assign", "assign_typed", "redeclare", "op_assign", "unwrap", "modify", "index_assign", "field_assign",
-         "index_op_assign", "field_op_assign", "counter", "unpack"]
-WRITE_CTX = ["same", "block", "else_block", "function", "method", "loop_header", "other_module"]
-BINDING_FORMS = ("assign", "assign_typed", "redeclare", "counter", "unpack")
+         "index_op_assign", "field_op_assign", "counter", "unpack",
+         # the constant in SECOND position of the pattern: after a fresh name / after an existing mutable variable
+         # (assignment_unpack.rs records only the FIRST colliding name)
+         "unpack_after_fresh", "unpack_after_mutable", "unpack_third"]
+UNPACK_FORMS = ("unpack", "unpack_after_fresh", "unpack_after_mutable", "unpack_third")
+WRITE_CTX = ["same", "block", "else_block", "function", "method", "loop_header", "other_module",
+             # an inner function that first declares its OWN mutable local of the same name (optionally after reading
+             # -- hence capturing -- the outer constant) and then writes, directly or from a nested block
+             "fn_shadow", "fn_shadow_block", "fn_shadow_read", "fn_shadow_read_block"]
+SHADOW_CTX = ("fn_shadow", "fn_shadow_block", "fn_shadow_read", "fn_shadow_read_block")
+BINDING_FORMS = ("assign", "assign_typed", "redeclare", "counter", "unpack", "unpack_after_fresh", "unpack_after_mutable", "unpack_third")
 A = ("var", "a")
 
 
@@ -277,6 +285,12 @@ def write_stmts(form, vt, op, target=A, rhs=None):
         return [("from", lit("0"), lit("3"), x, [])]
     if form == "unpack":
         return [("unpack", False, [x, "zz"], ("list", [o, o]))]
+    if form == "unpack_after_fresh":
+        return [("unpack", False, ["zz", x], ("list", [o, o]))]
+    if form == "unpack_after_mutable":
+        return [("unpack", False, ["mm", x], ("list", [o, o]))]
+    if form == "unpack_third":
+        return [("unpack", False, ["mm", "zz", x], ("list", [o, o, o]))]
     raise ValueError(form)
 
 
@@ -300,9 +314,14 @@ def header_stmts(form, vt, op, target=A, variant="while"):
     return [("while", ("bin", "==", e, lit(v["cmp"])), [("break",)])]
 
 
-def wrap(ctx, stmts):
+def wrap(ctx, stmts, shape="scalar", vt="int"):
     if ctx == "same":
         return stmts
+    if ctx in SHADOW_CTX:
+        pre = [("print", observe_expr(shape))] if "read" in ctx else []
+        local = decl_stmts(shape, vt, False)
+        inner = [("if", ("var", "true"), stmts, None)] if ctx.endswith("block") else stmts
+        return [("assign", False, False, "g", None, ("fn", [], None, pre + local + inner)), ("expr", ("call", ("var", "g"), []))]
     if ctx == "block":
         return [("if", ("var", "true"), stmts, None)]
     if ctx == "else_block":
@@ -351,9 +370,10 @@ def build(dctx, form, wctx, vt, op, const=True, hvariant="while"):
             if w is None:
                 return None
         else:
-            w = wrap(wctx, write_stmts(form, vt, op))
+            w = wrap(wctx, write_stmts(form, vt, op), shape, vt)
         pre = [BOX(v["ty"])] if shape == "object" else []
-        body = decl_stmts(shape, vt, const) + w + [("print", observe_expr(shape))]
+        mm = [("assign", False, False, "mm", None, lit(v["other"]))] if form in ("unpack_after_mutable", "unpack_third") else []
+        body = mm + decl_stmts(shape, vt, const) + w + [("print", observe_expr(shape))]
         if dctx == "module":
             prog = [MARK] + pre + body + [END]
         elif dctx == "function":
@@ -362,6 +382,8 @@ def build(dctx, form, wctx, vt, op, const=True, hvariant="while"):
         else:
             prog = [MARK] + pre + [("if", ("var", "true"), body, None), END]
         return {"main.ms": prog}
+    if dctx in ("class", "import") and wctx in SHADOW_CTX:
+        return None
     if dctx == "class":
         # the class name `a` is the constant; the neighbour is a non-const variable holding a constructor
         if form in ("field_assign", "field_op_assign", "index_assign", "index_op_assign", "unwrap", "assign_typed"):
@@ -378,6 +400,8 @@ def build(dctx, form, wctx, vt, op, const=True, hvariant="while"):
         else:
             w = wrap(wctx, write_stmts(form, vt, op, rhs=rhs))
         d = [EMPTY_CLASS("a")] if const else [EMPTY_CLASS("P"), ("assign", False, False, "a", None, ("var", "P"))]
+        if form in ("unpack_after_mutable", "unpack_third"):
+            d = d + [("assign", False, False, "mm", None, A)]
         return {"main.ms": [MARK] + d + w + [END]}
     if dctx == "import":
         # the module name `a` is the constant (file a.ms exports v); neighbour: a non-const variable holding a module
@@ -395,6 +419,8 @@ def build(dctx, form, wctx, vt, op, const=True, hvariant="while"):
         else:
             w = wrap(wctx, write_stmts(form, vt, op, rhs=rhs))
         mfile = [("assign", False, False, "v", v["ty"], lit(v["init"]), "export")]
+        if form in ("unpack_after_mutable", "unpack_third"):
+            w = [("assign", False, False, "mm", None, A)] + w
         if const:
             return {"main.ms": [MARK, ("import", "a")] + w + [("print", ("field", A, "v")), END], "a.ms": mfile}
         return {"main.ms": [MARK, ("import", "m2"), ("assign", False, False, "a", None, ("var", "m2"))] + w +
@@ -423,6 +449,9 @@ def expected(dctx, form, wctx):
         return "copy"
     if form in BINDING_FORMS and wctx in ("function", "method"):
         return "shadow"
+    if wctx in SHADOW_CTX:
+        # every form acts on the inner function's own local -- except `modify`, whose store goes to the CAPTURED variable
+        return "reject" if form == "modify" else "shadow"
     return "reject"
 
 
@@ -596,11 +625,16 @@ class Gen:
             if f == "unwrap" and opts and ints:
                 return [("expr", ("unwrap", ("var", r.choice(opts + ints)), ("var", r.choice(opts))))]
             if f == "unpack":
-                x, y = self.fresh(), (r.choice(ints) if ints and r.random() < 0.4 else self.fresh())
-                cur[x] = ("int", False)
-                if not self.same_fn(env, y):
-                    cur[y] = ("int", False)
-                return [("unpack", False, [x, y], ("list", [lit("1"), lit("2")]))]
+                names = []
+                for _ in range(r.choice([2, 2, 3])):
+                    nmx = r.choice(ints) if ints and r.random() < 0.45 else self.fresh()
+                    if nmx in names:
+                        nmx = self.fresh()
+                    names.append(nmx)
+                for y in names:
+                    if not self.same_fn(env, y):
+                        cur[y] = ("int", False)
+                return [("unpack", False, names, ("list", [lit(str(i + 1)) for i in range(len(names))]))]
             return [("print", self.rhs(env))]
         if depth >= 3:
             return [("print", self.rhs(env))]
@@ -686,7 +720,7 @@ def run(ctx):
                 matrix.setdefault(key, {}).setdefault("inapplicable", 0)
                 matrix[key]["inapplicable"] += 1
                 # still: the const version must not be ACCEPTED with a changed constant
-                if v == "accepted" and t["expect"] == "reject":
+                if v in ("accepted", "runtime") and t["expect"] == "reject":
                     spec_fail += 1
                     ctx.report("const-write-accepted:%s" % t["form"],
                                "a write to a const through form `%s` (%s) was accepted although even the non-const neighbour is rejected" % (t["form"], tid), replay)
@@ -712,7 +746,7 @@ def run(ctx):
                 if v in ("accepted", "runtime"):
                     obs = [l for l in lines if l not in ("MARK", "END")]
                     changed = "; the program ran and printed %r (initializer %s)" % (obs, init_txt)
-                ctx.report("const-write-accepted:%s" % t["form"],
+                ctx.report(("const-write-accepted:%s" if v == "accepted" else "const-write-compiled:%s") % t["form"],
                            "write form `%s` on a const declared in `%s`, written from `%s`, is not rejected at compile time (%s): verdict %s%s"
                            % (t["form"], t["dctx"], t["wctx"], tid, v, changed), replay)
         else:
